@@ -423,6 +423,41 @@ func runC10(c *fw.Case) {
 		{"Eval to illegal destination", "Eval", func() qframe.QFrame { return qf.Eval("$x", qframe.Expr("abs", types.ColumnName(iC))) }},
 		{"Rolling on unknown column", "Rolling", func() qframe.QFrame { return qf.Rolling("sum", "x", "nope") }},
 	}
+	// invalid leaf filters must also be reported when they are negated or nested (other code paths decode them)
+	badLeaves := []struct {
+		desc string
+		f    qframe.Filter
+	}{
+		{"unsupported comparator name", qframe.Filter{Column: iC, Comparator: ">>>", Arg: 1}},
+		{"ordering comparator on int column with string argument", qframe.Filter{Column: iC, Comparator: "<", Arg: "x"}},
+		{"ordering comparator on string column with int argument", qframe.Filter{Column: sC, Comparator: ">=", Arg: 1}},
+		{"ordering comparator on float column with bool argument", qframe.Filter{Column: fC, Comparator: "<", Arg: true}},
+		{"comparator function of the wrong type", qframe.Filter{Column: sC, Comparator: func(x int) bool { cb.hit(); return true }}},
+		{"like with invalid regular expression", qframe.Filter{Column: sC, Comparator: "like", Arg: "a("}},
+		{"comparator of unsupported type", qframe.Filter{Column: fC, Comparator: 3.5, Arg: 1.0}},
+		{"unknown column", qframe.Filter{Column: "nope", Comparator: "<", Arg: 1}},
+		{"bool column with unsupported comparator", qframe.Filter{Column: bC, Comparator: "<", Arg: true}},
+	}
+	for _, bl := range badLeaves {
+		leaf := bl.f
+		inv := leaf
+		inv.Inverse = true
+		valid := qframe.Filter{Column: iC, Comparator: "isnotnull"}
+		forms := []struct {
+			name string
+			cl   qframe.FilterClause
+		}{
+			{"plain", leaf}, {"Inverse:true", inv}, {"Not(leaf)", qframe.Not(leaf)}, {"Not(Inverse leaf)", qframe.Not(inv)},
+			{"Or(valid, Inverse leaf)", qframe.Or(valid, inv)}, {"And(valid, Not(leaf))", qframe.And(valid, qframe.Not(leaf))}, {"Not(Or(And(Inverse leaf)))", qframe.Not(qframe.Or(qframe.And(inv)))},
+		}
+		for _, fm := range forms {
+			cl := fm.cl
+			judge("Filter with "+bl.desc+", form "+fm.name, "Filter", true, func() qframe.QFrame { return qf.Filter(cl) })
+			if c.Failed() {
+				return
+			}
+		}
+	}
 	before := cb.n
 	for _, m := range misuse {
 		if eC == "" && strings.Contains(m.desc, "enum") {
